@@ -481,10 +481,9 @@ func verifPeriodOnce(c verifCase) (out verifOut) {
 				code, err = lims[vnum(op[1])].Take(c.Keys[vnum(op[2])])
 			}
 			if fault != "" {
-				if hits := st.disarm(); hits != 1 {
-					out.Err = "fault intercepted " + strconv.Itoa(hits) + " commands"
-					return
-				}
+				// (how many script commands the call sent while the fault was armed is not the executor's business:
+				// whatever the call answered is judged against "the store answered the call with this reply")
+				st.disarm()
 			}
 			// third component: the circuit breaker let the command through
 			out.Obs = append(out.Obs, []any{code, err != nil, !errors.Is(err, breaker.ErrServiceUnavailable)})
@@ -720,8 +719,9 @@ func verifTokenOnce(c verifCase) (out verifOut) {
 					want = 1
 				}
 				if hits := st.disarm(); hits != want {
-					out.Err = "fault intercepted " + strconv.Itoa(hits) + " commands"
-					return
+					// the call never reached the store (cut off by the breaker) or sent several script commands:
+					// the forged reply was not what this call was answered with - take the run again
+					out.Disturbed = true
 				}
 			}
 			if c.Wall && time.Now().Unix() != sec {
